@@ -43,7 +43,8 @@ TIERS = {"quick": (3200, 8, 0), "thorough": (40000, 16, 0),
          # generation of the known-findings list only (never a check tier): other streams of the same seeds
          "deep": (200000, 80, 100)}
 MY_LEAN_FILES = ["BB/Generated/NumTables.lean", "BB/Lemmas/PowMod.lean", "BB/Model/NumEval.lean",
-                 "BB/Audit/C18.lean", "BB/Driver/OpsPy.lean"]
+                 "BB/Audit/C18.lean", "BB/Driver/OpsPy.lean", "BB/Model/NumMod.lean", "BB/Lemmas/NumMod.lean",
+                 "BB/Props/C18.lean", "BB/Audit/C18h.lean"]
 
 
 def py_env():
@@ -329,6 +330,109 @@ def driver_selftest(rep):
     return not wrong
 
 
+EXPMOD_HARNESS = os.path.join(core.VERIF, "tools", "expmod_harness.py")
+
+
+def expmod_pass(rep, tier, seed):
+    """`Exp.__mod__` for an integer exponent: real tm/num.py vs the Lean model `expModInt`
+    (BB/Model/NumMod.lean, proved correct for ALL inputs in BB/Props/C18.lean), plus Python's own
+    pow(b, e, m) as the judge of every value the real code returns."""
+    import random
+    rng = random.Random(seed * 9176 + 18)
+    n = 60000 if tier == "thorough" else 12000
+    mods_special = ([1, 2, 3, 4, 6, 8, 10, 12, 16, 30, 32, 54, 64, 162, 486, 1458, 4374, 2 ** 10, 2 ** 16, 2 ** 20, 3 ** 7, 10 ** 4,
+                     2 * 3 ** 9, 97, 101, 1001, 65537, 2 ** 24 - 3, 2 ** 24, 2 ** 24 + 1, 2 * 3 ** 15])
+    cases = set()
+    for b in range(2, 13):
+        for m in list(range(1, 70)) + mods_special:
+            for e in (2, 3, 4, 5, 6, 7, 8, 17, 40, 1000):
+                cases.add((b, e, m))
+    while len(cases) < n:
+        b = rng.choice([2, 2, 3, 3, 5, 6, 7, 10, rng.randrange(2, 40)])
+        e = rng.choice([rng.randrange(2, 50), rng.randrange(2, 5000), rng.randrange(2, 10 ** 12)])
+        r = rng.random()
+        m = (rng.randrange(1, 200) if r < 0.45 else rng.choice(mods_special) if r < 0.6 else
+             2 ** rng.randrange(1, 22) if r < 0.7 else 2 * 3 ** rng.randrange(0, 12) if r < 0.78 else
+             rng.randrange(1, 200000))
+        cases.add((b, e, m))
+    # exponent 1 is outside the library (the constructors fold it) but the function accepts it;
+    # exponent 0 cannot even be constructed (`Exp.__init__` takes log10 of it)
+    for b, m in ((3, 3), (4, 2), (5, 7), (2, 6), (9, 1)):
+        cases.add((b, 1, m))
+    cases = sorted(cases)
+    lines = [f"expmod {b} {e} {m}" for b, e, m in cases]
+    p = subprocess.run([python312(), EXPMOD_HARNESS, "--num-py", num_py_path()], input="\n".join(lines) + "\n",
+                       env=py_env(), capture_output=True, text=True, timeout=3600)
+    if p.returncode != 0:
+        raise RuntimeError("expmod_harness failed: " + p.stderr[-2000:])
+    impl = p.stdout.split("\n")
+    if impl and impl[-1] == "":
+        impl.pop()
+    model = core.run_driver(lines)
+    if len(impl) != len(lines):
+        raise RuntimeError("expmod_harness: line count")
+    mism = wrong = raised = 0
+    kinds = collections.Counter()
+    for (b, e, m), l, i, mo in zip(cases, lines, impl, model):
+        canon = "raise" if i.startswith("raise:") else i
+        kinds["raise" if canon == "raise" else "value"] += 1
+        if canon != mo:
+            mism += 1
+            if mism <= 20:
+                rep.violation("correspondence", {"case": l, "impl": i, "model": mo}, found_input=False)
+        if canon != "raise" and e >= 1:
+            try:
+                true = pow(b, e, m)
+            except ValueError:
+                continue
+            if i != str(true):
+                wrong += 1
+                if wrong <= 20:
+                    rep.violation("oracle", {"case": l, "impl_value": i, "true_value": str(true),
+                                             "what": f"({b} ** {e}) % {m}: Exp.__mod__ returned a wrong residue",
+                                             "impl_expression": f"Exp({b}, {e}).__mod__({m})"})
+        elif canon == "raise":
+            raised += 1
+    rep.add_counts(len(lines), len(lines) - raised)
+    rep.cov["expmod_cases"] = len(lines)
+    rep.cov["expmod_outcomes"] = dict(kinds)
+    rep.cov["expmod_correspondence_mismatches"] = mism
+    rep.cov["expmod_wrong_residues"] = wrong
+    rep.cov["expmod_samples"] = [lines[0], lines[len(lines) // 2], lines[-1]]
+
+
+def attach_hand_theorems(rep):
+    """the hand-written C18 theorems (BB/Props/C18.lean: expModInt_correct, findPeriod_order, ...)
+    next to the generated table theorems: built, audited, counted as obligations"""
+    if not os.path.exists(os.path.join(core.LEAN, "BB", "Props", "C18.lean")):
+        return
+    ok, msg = core.build_lean(("bbdriver", "BB.Props.C18"))
+    reg_p = os.path.join(core.VERIF, "theorems.json")
+    reg = json.load(open(reg_p)).get("C18h", []) if os.path.exists(reg_p) else []
+    if not ok:
+        rep.violation("lean-build-failed", {"theorem": "BB.Props.C18", "output": msg[-3000:]}, found_input=False)
+        rep.cov["obligations"] = rep.cov.get("obligations", 0) + len(reg)
+        return
+    res, raw, wanted = core.audit("C18h")
+    names = sorted(set(wanted) | set(reg))
+    bad = []
+    good = 0
+    for t_ in names:
+        if t_ not in res:
+            bad.append(f"{t_}: not proved / not audited")
+        elif not res[t_] <= core.ACCEPTED_AXIOMS:
+            bad.append(f"{t_}: axioms {sorted(res[t_] - core.ACCEPTED_AXIOMS)}")
+        else:
+            good += 1
+    if "__error__" in res:
+        bad.append("audit file failed to elaborate: " + list(res["__error__"])[0][-1500:])
+    rep.cov["obligations"] = rep.cov.get("obligations", 0) + len(names)
+    rep.cov["discharged"] = rep.cov.get("discharged", 0) + good
+    rep.cov["hand_written_theorems"] = {t_: sorted(res.get(t_, {"<missing>"})) for t_ in names}
+    if bad:
+        rep.violation("proof-obligation-failed", {"theorems": bad}, found_input=False)
+
+
 def load_known_c18():
     if not os.path.exists(KNOWN_PATH):
         return {}
@@ -350,7 +454,10 @@ def check(rep, tier, seed, replay):
         "operands above 6000 bits or with an exponent above 2000 are not generated; values above 400000 bits are skipped by the model",
     ]
     ok_tables, summary = check_tables(rep)
+    attach_hand_theorems(rep)
     driver_selftest(rep)
+    if not replay:
+        expmod_pass(rep, tier, seed)
 
     if replay:
         rp = json.load(open(replay))
